@@ -204,6 +204,137 @@ def relations(rng, tier, rpt):
                             "input": "%s key=%s depth=%d index=%d fp=%s" % (c, kb.hex(), d, ix, fp.hex()), "impl_output": str(got), "model_output": str((want_pub, want_pub, want_prv)),
                             "no_failing_input": False})
                 break
+    # the metadata of a key is a VALUE: what the accessors hand out (and the depth/index/chain-code/fingerprint objects the caller passed in)
+    # can be used freely — every documented value-returning method called (Harden/Unharden/Increase "get a new object", the converters, the
+    # predicates) — without changing the key: its fields still read as parsed and its FIRST serialisation after that use (and a repeated
+    # one) is the identical string.  Flows: parsed from xprv/xpub on all four curve classes; built from raw key + caller-owned key data;
+    # derived with a caller-owned index object / path object that the caller goes on using.  Truth is the explicit field tuple (`ser`).
+    from bip_utils import Bip32PathParser
+    na = 0
+
+    def use_value(v, still_ok=None):
+        """call the documented value-returning methods of a metadata object, in a random order; after each of the "get a new object" ones the
+        owner is looked at (`still_ok`), so that a change undone by a later call (Harden then Unharden) is seen too.  Returns descriptions of
+        wrong results / of the first change of the owner"""
+        wrong = []
+        before = int(v) if hasattr(v, "__int__") else (v.ToBytes() if hasattr(v, "ToBytes") else None)
+        names = ["ToInt", "ToBytes", "ToHex", "IsHardened", "IsMasterKey", "Length", "Size", "FixedLength", "__int__", "__bytes__", "__hash__", "Harden", "Unharden", "Increase"]
+        rng.shuffle(names)
+        for m in names:
+            f = getattr(v, m, None)
+            if not callable(f):
+                continue
+            if m == "Increase" and isinstance(before, int) and before >= 255:
+                continue            # no depth 256
+            try:
+                r = f()
+            except TypeError:       # unhashable / not this kind of object
+                continue
+            want = {"Harden": lambda: before | 0x80000000, "Unharden": lambda: before & 0x7fffffff, "Increase": lambda: before + 1}.get(m)
+            if want is not None:
+                if isinstance(before, int) and int(r) != want():
+                    wrong.append("%s() of %d returned %d" % (m, before, int(r)))
+                if still_ok is not None and not wrong:
+                    now = still_ok()
+                    if now is not None:
+                        wrong.append("after %s() on a %s value: %s" % (m, type(v).__name__, now))
+        return wrong
+
+    def use_all(o, truth):
+        w = []
+        ok = lambda: None if fields(o) == truth else "the key reads %s" % (fields(o),)     # noqa: E731
+        for v in (o.Index(), o.Depth(), o.ChainCode(), o.ParentFingerPrint(), o.FingerPrint(), o.PublicKey().Data().Index(), o.PublicKey().Data().Depth(),
+                  o.PublicKey().Data().ChainCode(), o.PublicKey().Data().ParentFingerPrint(), o.PublicKey().ChainCode()):
+            w += use_value(v, ok)
+        return w, ok
+
+    def fields(o):
+        return (int(o.Depth()), int(o.Index()), o.ChainCode().ToBytes().hex(), o.ParentFingerPrint().ToBytes().hex(), o.PublicKey().RawCompressed().ToBytes().hex())
+
+    def alias(where, inp, got, want):
+        bad.append({"property": "C05", "entry_point": where, "request_lines": [],
+                    "relation": "using the values handed out by (or passed to) an extended-key object changes its metadata or its serialisation: " + where,
+                    "input": inp, "impl_output": str(got), "model_output": str(want), "no_failing_input": False})
+
+    curves = list(CLS)
+    for i in range(24 if tier == "quick" else 600):
+        c = curves[i % 4]
+        ed = c.startswith("ed25519")
+        pv, sv = kvs[rng.randrange(len(kvs))]
+        kv = Bip32KeyNetVersions(pv, sv)
+        kb = bytes(rng.randrange(256) for _ in range(32)) if ed else rng.randrange(1, ORDER[c]).to_bytes(32, "big")
+        pubb = CLS[c].FromPrivateKey(kb).PublicKey().RawCompressed().ToBytes()
+        if i % 6 == 5:
+            d, ix, fp = 0, 0, bytes(4)
+        else:
+            d, ix, fp = rng.choice([1, 2, 127, 254, 255, rng.randrange(1, 256)]), rand_index(rng, True if ed else None), bytes(rng.randrange(256) for _ in range(4))
+        cc = bytes(rng.randrange(256) for _ in range(32))
+        s_prv, s_pub = ser(sv, d, fp, ix, cc, b"\x00" + kb), ser(pv, d, fp, ix, cc, pubb)
+        truth = (d, ix, cc.hex(), fp.hex(), pubb.hex())
+        flow = (i // 4) % 3
+        for is_pub, s in ((False, s_prv), (True, s_pub)):
+            na += 1
+            kd_objs = None
+            if flow < 2:        # parsed from the string; flow 1 serialises once BEFORE the values are used as well
+                o = CLS[c].FromExtendedKey(s, kv)
+                how = "FromExtendedKey(%s)" % ("xpub" if is_pub else "xprv")
+            else:               # built from raw key + key data objects that stay in the caller's hands
+                kd_objs = (Bip32Depth(d), Bip32KeyIndex(ix), Bip32ChainCode(cc), Bip32FingerPrint(fp))
+                o = CLS[c].FromPublicKey(pubb, Bip32KeyData(*kd_objs), kv) if is_pub else CLS[c].FromPrivateKey(kb, Bip32KeyData(*kd_objs), kv)
+                how = "%s(key, Bip32KeyData(depth, index, chain code, fingerprint objects))" % ("FromPublicKey" if is_pub else "FromPrivateKey")
+            out = (lambda: o.PublicKey().ToExtended()) if is_pub else (lambda: o.PrivateKey().ToExtended())
+            if flow == 1 and out() != s:
+                continue        # reported by the round-trip relation above
+            wrong, ok = use_all(o, truth)
+            if kd_objs is not None:
+                for v in kd_objs:
+                    wrong += use_value(v, ok)
+            inp = "%s %s, then Harden()/Unharden()/Increase()/converters called on the objects returned by Index(), Depth(), ChainCode(), ParentFingerPrint(), FingerPrint()%s; string=%s" % (
+                c, how, " and on the caller's key-data objects" if kd_objs is not None else "", s)
+            if wrong:
+                alias("a value-returning method returns the wrong value or changes the key it came from", inp, wrong[0], "new objects (index | 2^31, index & (2^31-1), depth + 1); the key reads %s" % (truth,))
+            elif fields(o) != truth:
+                alias("Depth()/Index()/ChainCode()/ParentFingerPrint()/PublicKey() no longer read as the fields of the string", inp, fields(o), truth)
+            elif out() != s or out() != s:
+                alias("the serialisation after that use is not the string the object was built from", inp, out(), s)
+            elif not is_pub and o.PublicKey().ToExtended() != s_pub:
+                alias("the extended public key of the private object after that use is not the standard string", inp, o.PublicKey().ToExtended(), s_pub)
+    # derived keys: the index object / path object used for the derivation stays the caller's and is reused (sibling m/i' from m/i ...)
+    for i in range(12 if tier == "quick" else 300):
+        c = curves[i % 4]
+        ed = c.startswith("ed25519")
+        seed = rand_seed(rng)
+        par = CLS[c].FromSeed(seed)
+        ixs = [rand_index(rng, True if ed else None) for _ in range(1 + i % 3)]
+        ptxt = "/".join("%d%s" % (e & 0x7fffffff, "'" if e >> 31 else "") for e in ixs)
+        ref = CLS[c].FromSeed(seed)
+        for e in ixs:
+            ref = ref.ChildKey(e)           # plain ints: nothing the caller could touch
+        want = (ref.PrivateKey().ToExtended(), ref.PublicKey().ToExtended(), fields(ref))
+        na += 1
+        if i % 2 == 0:
+            objs = [Bip32KeyIndex(e) for e in ixs]
+            o = par
+            for e in objs:
+                o = o.ChildKey(e)
+            how = "ChildKey(Bip32KeyIndex) chain %s, then Harden()/Unharden() on the caller's index objects" % ptxt
+        else:
+            path = Bip32PathParser.Parse(ptxt)
+            o = par.DerivePath(path)
+            objs = list(path)
+            how = "DerivePath(Bip32Path %s), then Harden()/Unharden() on the elements of the caller's path object" % ptxt
+        wrong = []
+        ok = lambda: None if fields(o) == want[2] else "the key reads %s" % (fields(o),)     # noqa: E731
+        for e in objs:
+            wrong += use_value(e, ok)
+        wrong += use_all(o, want[2])[0]
+        got = (o.PrivateKey().ToExtended(), o.PublicKey().ToExtended(), fields(o))
+        if wrong:
+            alias("a value-returning method returns the wrong value or changes the key it came from", "%s seed=%s %s" % (c, seed.hex(), how), wrong[0],
+                  "new objects (index | 2^31, index & (2^31-1), depth + 1); the key reads %s" % (want[2],))
+        elif got != want:
+            alias("a derived key no longer serialises as the child it is", "%s seed=%s %s" % (c, seed.hex(), how), got, want)
+    rpt.extra["metadata_value_checks"] = na
     # option switches are per coin configuration: setting the alternate version bytes of ONE Litecoin configuration changes the strings of
     # that configuration only (the others keep printing and parsing their standard versions), and restoring it restores everything
     from bip_utils import Bip44, Bip49, Bip84, Bip44Coins, Bip49Coins, Bip84Coins, Bip44ConfGetter, Bip49ConfGetter, Bip84ConfGetter
@@ -248,12 +379,17 @@ def relations(rng, tier, rpt):
     # keys with leading zero bytes and long paths included
     from bip_utils import Slip32PrivateKeySerializer, Slip32PublicKeySerializer, Slip32KeyDeserializer, Secp256k1PrivateKey, Ed25519PrivateKey, Bip32Path
     ns = 0
-    for i in range(40 if tier == "quick" else 800):
+    n_small = 40 if tier == "quick" else 800
+    # path lengths: short ones at random, then the whole range of the one-byte depth field — a SLIP-32 string has no fixed length
+    # (11 + ceil((66 + 4*depth)*8/5) characters: 117 at depth 0, 1749 at depth 255), so every limit of the text layer lies somewhere on this axis
+    deep = sorted({11, 12, 13, 50, 100, 128, 140, 141, 142, 143, 150, 200, 254, 255} | {rng.randrange(11, 256) for _ in range(4)}) if tier == "quick" else list(range(256))
+    plan = [None] * n_small + deep
+    for i, plen in enumerate(plan):
         ed = i % 5 == 4
         kb = bytes(rng.randrange(256) for _ in range(32)) if ed else \
             rng.choice([rng.randrange(1, ORDER["secp256k1"]), rng.randrange(1, 2**248), rng.randrange(1, 2**240), rng.randrange(1, 256), 1]).to_bytes(32, "big")
         priv = (Ed25519PrivateKey if ed else Secp256k1PrivateKey).FromBytes(kb)
-        elems = [rand_index(rng, True if ed else None) for _ in range(rng.choice([0, 1, 3, 5, 10]))]
+        elems = [rand_index(rng, True if ed else None) for _ in range(rng.choice([0, 1, 3, 5, 10]) if plen is None else plen)]
         path = Bip32Path(elems, True)
         cc = bytes(rng.randrange(256) for _ in range(32)) if i % 7 else bytes(2) + bytes(rng.randrange(256) for _ in range(30))
         head = bytes([len(elems)]) + b"".join(e.to_bytes(4, "big") for e in elems) + cc
@@ -274,9 +410,21 @@ def relations(rng, tier, rpt):
             exp = (key_field if is_pub else kb, elems, cc, is_pub)
             if got != exp:
                 bad.append({"property": "C05", "entry_point": "Slip32KeyDeserializer.DeserializeKey", "request_lines": [],
-                            "relation": "parsing a SLIP-32 string does not reconstruct the key material and metadata it was built from",
+                            "relation": "parsing a SLIP-32 string (depth %d, %d characters) does not reconstruct the key material and metadata it was built from" % (len(elems), len(ser_s)),
                             "input": ser_s, "impl_output": str(got if isinstance(got, str) else (got[0].hex(), got[1], got[2].hex(), got[3])),
                             "model_output": str((exp[0].hex(), exp[1], exp[2].hex(), exp[3])), "no_failing_input": False})
+                continue
+            # re-serialisation from the PARSED parts is the identical string — also after the parsed values have been used (the path elements
+            # are index objects: Harden()/Unharden() give new objects)
+            for e in d.Path():
+                e.Harden(), e.Unharden(), e.ToInt()
+            d.ChainCode().ToBytes()
+            again = (Slip32PublicKeySerializer.Serialize(priv.PublicKey(), d.Path(), d.ChainCode()) if is_pub else
+                     Slip32PrivateKeySerializer.Serialize(priv, d.Path(), d.ChainCode()))
+            if again != ser_s or d.Path().ToList() != elems:
+                bad.append({"property": "C05", "entry_point": "Slip32 serializer after Slip32KeyDeserializer.DeserializeKey", "request_lines": [],
+                            "relation": "re-serialising the parts of a parsed SLIP-32 key (after Harden()/Unharden() were called on the elements of its path) does not give the identical string",
+                            "input": ser_s, "impl_output": again, "model_output": ser_s, "no_failing_input": False})
     rpt.extra["slip32_checks"] = ns
     rpt.extra["impl_roundtrips"] = n
     return bad[:8]
